@@ -88,6 +88,26 @@ CHECKS = {
   ],
   "not_decided": ["textual-inclusion equivalence (moving directives into an included file leaves verdict and catalog unchanged)", "symbolic links / OS path semantics", "names longer than N bytes"],
  },
+ "C09": {
+  "title": "Accepted means serialisable",
+  "harnesses": [
+   {"pkg": "catalog", "fn": "VerifH_OrderedMaps", "quick": {}, "thorough": {}, "instances": [{"T": t} for t in range(5)], "lock_monitor": True, "no_replay_kinds": ["lock"]},
+   {"pkg": "catalog", "fn": "VerifH_IdInjective", "quick": {"N": 3}, "thorough": {"N": 4}},
+  ],
+  "assumptions": ["ordered collections: pre-state is any state with at most 3 entries satisfying the representation invariant; one step is inductive for histories of any length",
+                  "collection keys are 1-byte strings (the code never looks inside a key)"],
+  "not_decided": ["validity of the JSON produced by encoding/json (not encoded): UTF-8, equality of indented and compact forms, duplicate keys inside struct-generated objects",
+                  "existence of every used user type / enum named by schema-library ASTs", "tag/interaction cross references, format/notation (pipeline harness pending)"],
+ },
+ "C16": {
+  "title": "Concurrency (reduced to lock discipline)",
+  "harnesses": [
+   {"pkg": "catalog", "fn": "VerifH_OrderedMaps", "quick": {}, "thorough": {}, "instances": [{"T": t} for t in range(5)], "lock_monitor": True, "no_replay_kinds": ["lock"]},
+  ],
+  "assumptions": ["lockset monitor: every load/store of the collection's data/order fields, of the map object and of the order slice's elements must happen with the collection's mutex held (write-held for writes); Lock on a held mutex = self-deadlock; no lock may remain held after the operation",
+                  "violations of kind 'lock' are not replayed natively (a single-threaded run cannot exhibit them)"],
+  "not_decided": ["everything schedule-dependent: data races between goroutines, equality of concurrent and solo results, races inside the schema library / regexp / reggen", "absence of shared mutable package state"],
+ },
  "C13": {
   "title": "Path parameters",
   "harnesses": [
@@ -106,9 +126,11 @@ CHECKS = {
   "title": "Descriptions and annotations",
   "harnesses": [
    {"pkg": "catalog", "fn": "VerifH_Annotation", "quick": {"N": 5}, "thorough": {"N": 7}},
+   {"pkg": "core", "fn": "VerifH_DescriptionNormal", "quick": {"N": 4}, "thorough": {"N": 5}},
+   {"pkg": "core", "fn": "VerifH_DescriptionParens", "quick": {"N": 6}, "thorough": {"N": 8}},
   ],
-  "assumptions": ["regexp engine not encoded: (*Regexp).ReplaceAllString is an engine intrinsic for the single pattern \\s+ (Perl class [\\t\\n\\f\\r ])", "ASCII texts"],
-  "not_decided": ["description() normalisation (harness pending)", "scanner/normaliser agreement on where a description ends"],
+  "assumptions": ["description texts: ASCII without NUL, VT, FF", "regexp engine not encoded: (*Regexp).ReplaceAllString is an engine intrinsic for the single pattern \\s+ (Perl class [\\t\\n\\f\\r ])", "ASCII texts"],
+  "not_decided": ["scanner/normaliser agreement on where a description ends", "non-ASCII whitespace (VT, FF, NEL, NBSP are outside the statement's alphabet)", "texts longer than N bytes"],
  },
  "C17": {
   "title": "Parameters round-trip",
